@@ -16,24 +16,24 @@ func (p *watPrinter) printExport() error {
 	for _, e := range p.m.Exports {
 		switch e.Kind {
 		case token.GLOBAL:
-			fmt.Fprintf(p.w, `%s(export "%s" (global %s))`+"\n",
-				p.indent, e.Name, watPrinter_identOrIndex(e.GlobalIdx),
+			fmt.Fprintf(p.w, `%s(export %s (global %s))`+"\n",
+				p.indent, watPrinter_quote(e.Name), watPrinter_identOrIndex(e.GlobalIdx),
 			)
 		case token.FUNC:
 			// 函数定义处内联的导出由 printFuncs 输出
 			if p.isInlineFuncExport(e) {
 				continue
 			}
-			fmt.Fprintf(p.w, `%s(export "%s" (func %s))`+"\n",
-				p.indent, e.Name, watPrinter_identOrIndex(e.FuncIdx),
+			fmt.Fprintf(p.w, `%s(export %s (func %s))`+"\n",
+				p.indent, watPrinter_quote(e.Name), watPrinter_identOrIndex(e.FuncIdx),
 			)
 		case token.MEMORY:
-			fmt.Fprintf(p.w, `%s(export "%s" (memory %s))`+"\n",
-				p.indent, e.Name, watPrinter_identOrIndex(e.MemoryIdx),
+			fmt.Fprintf(p.w, `%s(export %s (memory %s))`+"\n",
+				p.indent, watPrinter_quote(e.Name), watPrinter_identOrIndex(e.MemoryIdx),
 			)
 		case token.TABLE:
-			fmt.Fprintf(p.w, `%s(export "%s" (table %s))`+"\n",
-				p.indent, e.Name, watPrinter_identOrIndex(e.TableIdx),
+			fmt.Fprintf(p.w, `%s(export %s (table %s))`+"\n",
+				p.indent, watPrinter_quote(e.Name), watPrinter_identOrIndex(e.TableIdx),
 			)
 		default:
 			panic("unreachable")
